@@ -48,8 +48,13 @@ func CompileAllOf(rootSchema *schema.Schema) {
 		c.processType(name)
 	}
 
+	// A name which the root already knows is kept (like in AddUnnamedTypes): the
+	// type table of an inherited type must not replace the root's own type,
+	// whose "allOf" has just been compiled, by a private copy.
 	for n, t := range c.foundTypes {
-		rootSchema.AddType(n, t)
+		if _, ok := rootSchema.TypesList()[n]; !ok {
+			rootSchema.AddType(n, t)
+		}
 	}
 }
 
